@@ -19,6 +19,10 @@
 (*   pl    : piece length in units                                         *)
 (*   unit  : bytes per unit (1 in the exhaustive byte-granular space;      *)
 (*           4096/5461/8192 in the scaled runs where BS = 16384 matters)   *)
+(*   zero  : (optional, default {}) the set of unit-sized chunks, numbered *)
+(*           from 1 along the concatenation, whose CONTENT is zero bytes   *)
+(*           (sparse files, disk images, preallocated files); every other  *)
+(*           chunk c carries the value c (so at unit = 1 byte k carries k) *)
 (* All derived quantities below are in BYTES.                              *)
 (*                                                                         *)
 (* Runs are tuples <<file, offset, length, padflag>>; blocks are tuples    *)
@@ -57,12 +61,13 @@ Prep(R) ==
         total == st[Len(R.files) + 1]
         plb   == R.pl * R.unit
         fl    == IF R.unit = 1 THEN FlatFrom(R, 1) ELSE <<>>
-    IN  [files |-> R.files, pl |-> R.pl, unit |-> R.unit, st |-> st, total |-> total, plb |-> plb,
+        zs    == IF "zero" \in DOMAIN R THEN R.zero ELSE {}
+    IN  [files |-> R.files, pl |-> R.pl, unit |-> R.unit, st |-> st, total |-> total, plb |-> plb, zero |-> zs,
          np    |-> IF plb >= 1 THEN (total + plb - 1) \div plb ELSE 0,
          flat  |-> fl,
          \* what a reader must see once every piece has been written with its flat index (1-based):
-         \* zero in padding, the flat index elsewhere
-         mask  |-> [k \in 1 .. Len(fl) |-> IF R.files[fl[k][1]][2] = 1 THEN 0 ELSE k]]
+         \* zero in padding and in zero-content chunks, the flat index elsewhere
+         mask  |-> [k \in 1 .. Len(fl) |-> IF R.files[fl[k][1]][2] = 1 \/ k \in zs THEN 0 ELSE k]]
 
 NF(L)        == Len(L.files)
 FStart(L, f) == L.st[f]                      \* bytes before file f
@@ -72,6 +77,7 @@ IsPad(L, f)  == L.files[f][2] = 1
 PLen(L)      == L.plb
 Total(L)     == L.total
 Flat(L)      == L.flat
+Val(L, c)    == IF c \in L.zero THEN 0 ELSE c     \* content of chunk c (1-based)
 
 \* metainfo.NewInfo: piece length > 0, at least one piece, 0 <= np*PL - total < PL.
 \* With np derived from the layout this is "there is at least one byte".
@@ -123,7 +129,7 @@ SectionsOK(L, i, obs) == Norm(obs) = Norm(Sections(L, i))
 (* blocks                                                                   *)
 
 \* set formulation (ground truth, unit = 1)
-NonPadPos(L, i) == {k \in 0 .. (PieceLen(L, i) - 1) : L.mask[Lo(L, i) + k + 1] # 0}
+NonPadPos(L, i) == {k \in 0 .. (PieceLen(L, i) - 1) : ~IsPad(L, L.flat[Lo(L, i) + k + 1][1])}
 BlkPos(b) == b[1] .. (b[1] + b[2] - 1)
 
 \* @obligation C02.blocks.len      every block is 1..BS bytes long
@@ -190,7 +196,7 @@ CalcBlocks(secs, bs, stale) == CB(secs, bs, stale, 1, <<>>, 0, 0, 0, 0)
 -----------------------------------------------------------------------------
 (* reading and writing                                                      *)
 
-PieceData(L, i) == [j \in 1 .. PieceLen(L, i) |-> Lo(L, i) + j]      \* what is written: flat index, never 0
+PieceData(L, i) == [j \in 1 .. PieceLen(L, i) |-> Val(L, Lo(L, i) + j)]   \* what is written: flat index, 0 in zero-content chunks
 
 \* @obligation C02.read  ReadAt(i, off, n) returns the flat bytes, padding as zeros
 ReadAt(L, d, i, off, n) ==
@@ -214,7 +220,7 @@ WriteSecs(d, secs, data, po) ==
 Masked(L, i) == SubSeq(L.mask, Lo(L, i) + 1, Hi(L, i))
 
 \* disk contents after every piece has been written (closed form, any unit = 1 layout)
-FinalDisk(L) == [f \in 1 .. NF(L) |-> IF IsPad(L, f) THEN <<>> ELSE [o \in 1 .. FLen(L, f) |-> FStart(L, f) + o]]
+FinalDisk(L) == [f \in 1 .. NF(L) |-> IF IsPad(L, f) THEN <<>> ELSE [o \in 1 .. FLen(L, f) |-> Val(L, FStart(L, f) + o)]]
 
 \* run-length form for scaled layouts: unit-sized chunk c (0-based) of the flat array carries the value
 \* c+1 (0 if padding); the bytes of [a, b) as <<value, count>> pairs with equal neighbours merged
@@ -229,11 +235,11 @@ ExpRLE(L, a, b) ==
              c1 == (b - 1) \div L.unit
          IN  MergeRLE([k \in 1 .. (c1 - c0 + 1) |->
                           LET c == c0 + k - 1
-                          IN  <<IF IsPad(L, ChunkFile(L, c)) THEN 0 ELSE c + 1,
+                          IN  <<IF IsPad(L, ChunkFile(L, c)) THEN 0 ELSE Val(L, c + 1),
                                 Min(b, (c + 1) * L.unit) - Max(a, c * L.unit)>>])
 \* file f after every piece has been written, run-length form
 FinalDiskRLE(L, f) == IF IsPad(L, f) THEN <<>> ELSE
-    [k \in 1 .. L.files[f][1] |-> <<FStart(L, f) \div L.unit + k, L.unit>>]
+    MergeRLE([k \in 1 .. L.files[f][1] |-> <<Val(L, FStart(L, f) \div L.unit + k), L.unit>>])
 
 -----------------------------------------------------------------------------
 (* web-seed jobs for the piece range [b, e)                                 *)
@@ -275,7 +281,17 @@ ReadBackInv ==
 DiskInv ==
     \A f \in 1 .. NF(lay) : \A o \in 1 .. FLen(lay, f) :
         disk[f][o] = IF ~IsPad(lay, f) /\ ((FStart(lay, f) + o - 1) \div PLen(lay)) \in wrote
-                     THEN FStart(lay, f) + o ELSE 0
+                     THEN Val(lay, FStart(lay, f) + o) ELSE 0
+\* VERIFICATION.  A piece is PRESENT iff what a reader sees of it equals its content (SHA-1 taken as collision free:
+\* hash equality = content equality).  Content that is all zero bytes - a zero run covering the piece, a piece made of
+\* padding only - is content like any other: such a piece is present on freshly allocated (zero-filled) storage.
+Present(L, d, i)   == ReadAt(L, d, i, 0, PieceLen(L, i)) = Masked(L, i)
+AllZeroPiece(L, i) == ExpRLE(L, Lo(L, i), Hi(L, i)) = <<<<0, PieceLen(L, i)>>>>       \* any unit
+\* @obligation C02.verify       every piece whose on-disk content is its content is reported present: after all pieces
+\*                              were written (or: the torrent was created from these files) every piece is present
+\* @obligation C02.verify.zero  ... and before any write exactly the all-zero pieces are
+VerifyInv ==
+    \A i \in Pieces(lay) : Present(lay, disk, i) <=> (i \in wrote \/ AllZeroPiece(lay, i))
 AllWrittenIsFinal ==
     (wrote = Pieces(lay)) =>
         \A f \in 1 .. NF(lay) : ~IsPad(lay, f) => disk[f] = FinalDisk(lay)[f]
